@@ -503,7 +503,7 @@ impl Grid {
                 .unwrap()
                 .is_wide_continuation();
         let row = self.current_row_mut();
-        for _ in 0..count {
+        for _ in 0..(count.min(size.cols - pos.col)) {
             if wide {
                 row.get_mut(pos.col).unwrap().set_wide_continuation(false);
             }
